@@ -1271,7 +1271,9 @@ class MultiCouplingTerms(CouplingTerms):
             if tL is not None:
                 for i, op_i, op_str in tL:
                     term.append((op_i, i))
-            if op_switch != op_str:
+            if op_switch != op_str or not tR:
+                # (`op_switch` is the operator string left of `switchLR` if no operator acts there;
+                # without a right part, `switchLR` is the last site of the term and holds an operator)
                 term.append((op_switch, switchLR))
             if tR is not None:
                 for i, op_i, op_str in reversed(tR):
